@@ -1,4 +1,5 @@
 import PfVerif.Model.C12
+import PfVerif.Proofs.C12_alias
 import PfVerif.Generated.CacheProtocol
 /-! # C12 — results never depend on the history of earlier calls on the same object
 
@@ -6,7 +7,18 @@ import PfVerif.Generated.CacheProtocol
 `Coherent`, every abstract semantics (`Sem`: arbitrary recomputation functions and mutations that
 respect the dependency frame), every finite history of calls with arbitrary arguments and every
 resolution of the table's may-nondeterminism (which possible writes happen, cache on or off).
-`coherent_table` discharges `Coherent` for the table REGENERATED FROM /repo's SOURCE on this run. -/
+`coherent_table` discharges `Coherent` for the table REGENERATED FROM /repo's SOURCE on this run.
+
+**Stored values are mutable objects.** The machine (`Model/C12.lean`) separates the dictionary
+protocol (`stepCore`) from in-place writes into the stored objects (`clobbered`): a method whose
+table entry lists an in-place write through a name that may alias the value stored under `k`
+(found by the alias analysis of `harness/extract_cache.py`: subscript / augmented assignment,
+`out=`, `np.copyto`, `.fill`, `.sort`, a kernel that assigns into its parameter, ...) may replace
+that value by an *arbitrary* one. Clause (6) `noInPlace` of `Entry.coherent` excludes this;
+`history_independent` is proved for the extended machine, `inplace_breaks_history_independence`
+shows that the clause is necessary (for every semantics, every entry with an in-place write on a
+key it stores, every wrong value), and `history_dependent_with_inplace` is a closed instance:
+one table, two histories ending in the same abstract state, different answers. -/
 namespace Pf.C12
 variable {S V A : Type}
 
@@ -22,20 +34,20 @@ theorem stable (sem : Sem S V A) (e : Entry) (a : A) (s : S) (k : Key)
     sem.recompute k (sem.mutate e a s) = sem.recompute k s := by
   apply sem.frame
   simp only [Entry.coherent, Bool.and_eq_true, List.all_eq_true] at hc
-  obtain ⟨⟨⟨⟨⟨_, _⟩, _⟩, h4⟩, _⟩, _⟩ := hc
+  obtain ⟨⟨⟨⟨⟨⟨_, _⟩, _⟩, h4⟩, _⟩, _⟩, _⟩ := hc
   have hk' : k ∈ allKeys := by simpa using hk
   have := h4 k hk'
   simp only [h1, h2, Bool.or_false, Bool.not_eq_eq_eq_not, Bool.not_true] at this
   exact this
 
-/-- one call of a coherent method preserves the invariant -/
-theorem step_inv (sem : Sem S V A) (e : Entry) (a : A) (ch : Choice V) (o : Obj S V)
-    (hc : e.coherent = true) (hinv : Inv sem o) : Inv sem (step sem e a ch o) := by
+/-- the protocol part of one call of a coherent method preserves the invariant -/
+theorem stepCore_inv (sem : Sem S V A) (e : Entry) (a : A) (ch : Choice V) (o : Obj S V)
+    (hc : e.coherent = true) (hinv : Inv sem o) : Inv sem (stepCore sem e a ch o) := by
   intro k v h
   have hc' := hc
   simp only [Entry.coherent, Bool.and_eq_true, List.all_eq_true] at hc'
-  obtain ⟨⟨⟨⟨⟨c1, _⟩, c3⟩, _⟩, c5⟩, c6⟩ := hc'
-  simp only [step] at h
+  obtain ⟨⟨⟨⟨⟨⟨c1, _⟩, c3⟩, _⟩, c5⟩, c6⟩, _⟩ := hc'
+  simp only [stepCore] at h
   by_cases hs : e.syncs k = true
   · -- re-synchronised by a mutator
     simp only [hs, if_true, Option.some.injEq] at h
@@ -93,6 +105,13 @@ theorem step_inv (sem : Sem S V A) (e : Entry) (a : A) (ch : Choice V) (o : Obj 
           obtain ⟨hk, hv⟩ := hinv k v h
           exact ⟨hk, by rw [hv]; exact (stable sem e a o.s k hc hk hs' hd').symm⟩
 
+/-- one call of a coherent method preserves the invariant (clause (6): a coherent method has no
+in-place write, so the call is its protocol part) -/
+theorem step_inv (sem : Sem S V A) (e : Entry) (a : A) (ch : Choice V) (o : Obj S V)
+    (hc : e.coherent = true) (hinv : Inv sem o) : Inv sem (step sem e a ch o) := by
+  rw [step_eq_stepCore sem (coherent_noInPlace hc)]
+  exact stepCore_inv sem e a ch o hc hinv
+
 theorem fresh_inv (sem : Sem S V A) (s : S) : Inv sem (fresh s : Obj S V) := by
   intro k v h; simp [fresh] at h
 
@@ -142,6 +161,108 @@ theorem run_state (sem : Sem S V A) :
   | nil => intro o; rfl
   | cons c rest ih => intro o; obtain ⟨e, a, ch⟩ := c; simp only [run, List.foldl_cons]; rw [ih]; rfl
 
+/-! ## in-place writes: clause (6) is necessary -/
+
+/-- every possible write happens, and the in-place write leaves `v` -/
+def wrongChoice (v : V) : Choice V :=
+  { doWrite := fun _ => true, late := fun _ => true, junk := fun _ => v, clobber := fun _ => some v }
+
+/-- **Without clause (6) history independence fails**, for *every* semantics: let `e` be an entry
+that may write in place into the value stored under `k` and that also stores `k` (and does not drop
+or re-synchronise it) - every other clause of coherence may hold. Then for every argument, every
+state and every value `v` other than the correct one there is a resolution of the entry's
+nondeterminism after which the query of `k` returns `v`, while a fresh object holding the same
+abstract state returns the correct value. -/
+theorem inplace_breaks_history_independence (sem : Sem S V A) (e : Entry) (a : A) (s : S) (k : Key)
+    (v : V) (hip : e.writesInPlace k = true) (hw : e.writes.any (·.key == k) = true)
+    (hs : e.syncs k = false) (hd : e.drops k = false)
+    (hv : v ≠ sem.recompute k (sem.mutate e a s)) :
+    ∃ ch : Choice V,
+      query sem (run sem (fresh s) [(e, a, ch)]) k = v ∧
+      query sem (fresh (run sem (fresh s) [(e, a, ch)]).s : Obj S V) k ≠ v := by
+  refine ⟨wrongChoice v, ?_, ?_⟩
+  · have hc : (stepCore sem e a (wrongChoice v) (fresh s)).cache k
+        = some (writeVal sem e a (wrongChoice v) s e.writes k) := by
+      simp only [stepCore, hs, hd, hw, wrongChoice, fresh, Bool.false_eq_true, if_false, Bool.and_self, if_true]
+    have h2 := step_cache_clobbered sem e a (wrongChoice v) (fresh s) k _ v hip hc rfl
+    simp only [run, query, h2]
+  · show sem.recompute k (sem.mutate e a s) ≠ v
+    exact fun h => hv h.symm
+
+/-- the same for a value that an EARLIER call stored: a method that only reads `k` from the cache
+and writes into the object it got (`strord = self._check_data(None, "strord"); strord[~mask] = 0`) -/
+theorem inplace_breaks_later_reads (sem : Sem S V A) (e : Entry) (a : A) (ch : Choice V) (o : Obj S V)
+    (k : Key) (w v : V) (hip : e.writesInPlace k = true)
+    (hc : (stepCore sem e a ch o).cache k = some w) (hcl : ch.clobber k = some v)
+    (hv : v ≠ sem.recompute k (sem.mutate e a o.s)) :
+    query sem (step sem e a ch o) k ≠ query sem (fresh (step sem e a ch o).s : Obj S V) k := by
+  have h2 := step_cache_clobbered sem e a ch o k w v hip hc hcl
+  have hq : query sem (step sem e a ch o) k = v := by simp only [query, h2]
+  rw [hq]
+  show v ≠ sem.recompute k (sem.mutate e a o.s)
+  exact hv
+
+/-! ### a closed instance: one table, two histories, same abstract state, different answers -/
+
+/-- a one-point semantics: every quantity of the (single) abstract state is `0` -/
+def demoSem : Sem Unit Nat Unit :=
+  { recompute := fun _ _ => 0, mutate := fun _ _ s => s, frame := fun _ _ _ _ _ => rfl }
+
+/-- `stream_order()` as extracted from /repo: reads / stores `strord`, no in-place write -/
+def demoStreamOrder : Entry :=
+  { cls := "FlwdirRaster", name := "stream_order", reads := [{ key := "strord", unguarded := [] }],
+    writes := [{ key := "strord", taint := [], flagGuarded := true }], pops := [], memoSet := [],
+    memoReset := [], mutates := [] }
+
+/-- `subbasins_streamorder` of the seeded change C08-11: as before plus `strord[mask == False] = 0`
+on the array `_check_data(None, "strord")` returned (the cached one) -/
+def demoSubbasins : Entry :=
+  { demoStreamOrder with name := "subbasins_streamorder",
+                         inplace := [{ target := "strord", via := "strord[mask == False] = 0" }] }
+
+def demoTable : List Entry := [demoStreamOrder, demoSubbasins]
+
+/-- a call that stores what it computes / a later call that finds the key and only reads it -/
+def chStore : Choice Nat := { doWrite := fun _ => true, late := fun _ => false, junk := fun _ => 0 }
+def chRead : Choice Nat := { doWrite := fun _ => false, late := fun _ => false, junk := fun _ => 0 }
+/-- the in-place write happens and leaves `7` in the stored array -/
+def chClobber : Choice Nat := { chStore with clobber := fun _ => some 7 }
+
+def demoHistory1 : List (Call Nat Unit) := [(demoStreamOrder, (), chStore)]
+def demoHistory2 : List (Call Nat Unit) := [(demoSubbasins, (), chClobber), (demoStreamOrder, (), chRead)]
+
+/-- **History independence fails for a table with one in-place entry**: both histories use only
+methods of the table and end in the same abstract state, the table satisfies every clause of
+coherence except (6) - and for exactly one entry - yet the same query answers `0` after the first
+history and `7` after the second. -/
+theorem history_dependent_with_inplace :
+    (demoTable.filter fun e => !e.noInPlace).length = 1 ∧
+    Coherent (demoTable.map fun e => { e with inplace := [] }) = true ∧
+    Coherent demoTable = false ∧
+    (∀ c ∈ demoHistory1, c.1 ∈ demoTable) ∧ (∀ c ∈ demoHistory2, c.1 ∈ demoTable) ∧
+    (run demoSem (fresh ()) demoHistory1).s = (run demoSem (fresh ()) demoHistory2).s ∧
+    query demoSem (run demoSem (fresh ()) demoHistory1) "strord" = 0 ∧
+    query demoSem (run demoSem (fresh ()) demoHistory2) "strord" = 7 := by
+  refine ⟨by decide, by decide, by decide, ?_, ?_, rfl, by decide, by decide⟩
+  · intro c hc
+    simp only [demoHistory1, List.mem_singleton] at hc
+    subst hc; simp [demoTable]
+  · intro c hc
+    simp only [demoHistory2, List.mem_cons, List.not_mem_nil, or_false] at hc
+    rcases hc with hc | hc <;> subst hc <;> simp [demoTable]
+
+/-- kernel-checked: the two histories give different answers to the same query ... -/
+example : query demoSem (run demoSem (fresh ()) demoHistory1) "strord" ≠
+    query demoSem (run demoSem (fresh ()) demoHistory2) "strord" := by decide
+/-- ... the second one differs from a fresh object holding the same state (the conclusion of
+`history_independent` is false for it) ... -/
+example : query demoSem (run demoSem (fresh ()) demoHistory2) "strord" ≠
+    query demoSem (fresh (run demoSem (fresh ()) demoHistory2).s : Obj Unit Nat) "strord" := by decide
+/-- ... and without the in-place write (the unchanged method) the same history is fine -/
+example : query demoSem (run demoSem (fresh ())
+      [({ demoSubbasins with inplace := [] }, (), chClobber), (demoStreamOrder, (), chRead)]) "strord" = 0 := by
+  decide
+
 /-- dropping cached entries (a save/load round trip keeps only `_seq`, `_pit`, `_nnodes`; switching
 the cache off keeps nothing) preserves the invariant, so the history can continue from there -/
 theorem restrict_inv (sem : Sem S V A) (o : Obj S V) (keep : Key → Bool) (hinv : Inv sem o) :
@@ -160,7 +281,8 @@ def conv (e : Generated.MethodEntry) : Entry :=
     writes := e.writes.map fun w => { key := w.key, taint := w.taint, flagGuarded := w.flagGuarded },
     pops := e.pops,
     memoSet := e.memoSet.map fun w => { key := w.attr, taint := w.taint, flagGuarded := true },
-    memoReset := e.memoReset, mutates := e.mutates }
+    memoReset := e.memoReset, mutates := e.mutates,
+    inplace := e.inplace.map fun w => { target := w.target, via := w.via } }
 
 /-- every method of both classes except the constructors (which define the initial state; memo
 values handed to a constructor are assumed consistent with the network - see the level note) -/
@@ -170,6 +292,11 @@ def genTable : List Entry :=
 /-- **Obligation re-checked against the current source on every run.** -/
 theorem coherent_table : Coherent genTable = true := by decide +kernel
 
+/-- **Obligation re-checked against the current source on every run** (part of `coherent_table`,
+stated on its own so that a failure names the cause): no method of either class writes in place
+through a name that may alias a value stored in `_cached` / a memo attribute. -/
+theorem no_inplace_table : (genTable.all Entry.noInPlace) = true := by decide +kernel
+
 theorem flag_guarded_table : FlagGuarded genTable = true := by decide +kernel
 
 /-- the four cache defects of the pinned snapshot (fixed in /repo) are exactly what `coherent` rejects -/
@@ -177,6 +304,11 @@ example : Entry.coherent { cls := "Flwdir", name := "stream_order", reads := [{ 
 example : Entry.coherent { cls := "Flwdir", name := "main_upstream", reads := [], writes := [{ key := "idxs_us_main", taint := ["uparea"], flagGuarded := true }], pops := [], memoSet := [], memoReset := [], mutates := [] } = false := by decide
 example : Entry.coherent { cls := "Flwdir", name := "add_pits", reads := [], writes := [], pops := [], memoSet := [{ key := "_pit", taint := ["idxs"], flagGuarded := true }], memoReset := ["_nnodes", "_seq"], mutates := ["ds"] } = false := by decide
 example : Entry.coherent { cls := "FlwdirRaster", name := "set_transform", reads := [], writes := [], pops := [], memoSet := [], memoReset := [], mutates := ["latlon", "transform"] } = false := by decide
+/-- the in-place writes of the seeded changes C08-11 / C19-11 (`strord[...] = 0` on the array `_check_data(None, "strord")`
+returned) and C10-11 (a kernel assigning into the cached main-upstream array) are what clause (6) rejects -/
+example : Entry.coherent { cls := "FlwdirRaster", name := "subbasins_streamorder", reads := [{ key := "strord", unguarded := [] }], writes := [{ key := "strord", taint := [], flagGuarded := true }], pops := [], memoSet := [], memoReset := [], mutates := [], inplace := [{ target := "strord", via := "subscript assignment `strord[mask == False] = ...`" }] } = false := by decide
+example : Entry.coherent { cls := "FlwdirRaster", name := "_subgrid_idxs_nxt", reads := [{ key := "idxs_us_main", unguarded := [] }], writes := [{ key := "idxs_us_main", taint := [], flagGuarded := true }], pops := [], memoSet := [], memoReset := [], mutates := [], inplace := [{ target := "idxs_us_main", via := "passed as `idxs_nxt` to subgrid.mask_idxs_nxt, which writes into it" }] } = false := by decide
+example : Entry.coherent { cls := "FlwdirRaster", name := "subbasins_streamorder", reads := [{ key := "strord", unguarded := [] }], writes := [{ key := "strord", taint := [], flagGuarded := true }], pops := [], memoSet := [], memoReset := [], mutates := [], inplace := [] } = true := by decide
 /-- and the repaired `add_pits` / `set_transform` entries are accepted -/
 example : Entry.coherent { cls := "Flwdir", name := "add_pits", reads := [], writes := [], pops := ["distnc", "idxs_us_main", "rank", "strord"], memoSet := [{ key := "_pit", taint := ["idxs"], flagGuarded := true }], memoReset := ["_nnodes", "_seq"], mutates := ["ds"] } = true := by decide
 /-- non-vacuity of the theorem's hypotheses: the generated table is non-empty and has mutators -/
